@@ -9,9 +9,6 @@ namespace C15
 section
 variable {σ κ : Type} [DecidableEq σ] [DecidableEq κ] (c : Cfg σ κ)
 
-/-- largest sub-account field for which one more operation cannot wrap: 2^63-1 - 10^17. -/
-def cap : Int := 9123372036854775807
-
 /-- intended change of `deficit · e'` by a successful operation. -/
 def opDeficit (c : Cfg σ κ) (e' : σ) : Op σ → Int
   | .transfer f t amt =>
@@ -66,76 +63,72 @@ theorem deficit_eq (s : State σ κ) (e' : σ) : deficit c s e' = mb c s e' - su
 
 /-! ### effect of the sub-ledger basic operations on `subSum` -/
 
-theorem execDeposit_subSum {s : State σ κ} (hw : WF c s) (hs : SubB cap s.sub) (a e : σ) (amt : Int)
+theorem execDeposit_subSum {s : State σ κ} (hw : WF c s) (hs : SubB 9000000000000000000 s.sub) (a e : σ) (amt : Int)
     (hok : (execDeposit c s a e amt).2 = .ok) (e' : σ) :
     subSum e' (execDeposit c s a e amt).1 = subSum e' s + (if e = e' then amt else 0) := by
-  rcases execDeposit_cases c s a e amt with hf | ⟨_, h1, he⟩
+  rcases execDeposit_cases c s a e amt with hf | ⟨nb, _, h1, h4, he⟩
   · exact absurd hok (not_ok_of_failed hf)
-  · rw [he]; rw [checkAmount_iff] at h1
+  · rw [he]
     obtain ⟨a1, a2, a3, a4⟩ := subB_load c hs (by decide) a e
-    unfold cap at a2 a4
-    rw [wrap_id (by omega) (by omega)]
-    have := subSum_update c hw a e e' ((loadSub c s a e).bal + amt) (loadSub c s a e).frz
-    rw [show (saveSub c s e { loadSub c s a e with bal := (loadSub c s a e).bal + amt }) =
-      saveSub c s e ⟨(loadSub c s a e).addr, (loadSub c s a e).bal + amt, (loadSub c s a e).frz⟩ from rfl]
+    obtain ⟨n1, n2, n3⟩ := safeAdd_some h4 a1 a2
+    have := subSum_update c hw a e e' nb (loadSub c s a e).frz
+    rw [show (saveSub c s e { loadSub c s a e with bal := nb }) =
+      saveSub c s e ⟨(loadSub c s a e).addr, nb, (loadSub c s a e).frz⟩ from rfl]
     rw [this]; split <;> omega
 
-theorem execWithdraw_subSum {s : State σ κ} (hw : WF c s) (hs : SubB cap s.sub) (e a : σ) (amt : Int)
+theorem execWithdraw_subSum {s : State σ κ} (hw : WF c s) (hs : SubB 9000000000000000000 s.sub) (e a : σ) (amt : Int)
     (hok : (execWithdraw c s e a amt).2 = .ok) (e' : σ) :
     subSum e' (execWithdraw c s e a amt).1 = subSum e' s - (if e = e' then amt else 0) := by
   rcases execWithdraw_cases c s e a amt with hf | ⟨_, h1, h2, he⟩
   · exact absurd hok (not_ok_of_failed hf)
   · rw [he]; rw [checkAmount_iff] at h1
     obtain ⟨a1, a2, a3, a4⟩ := subB_load c hs (by decide) a e
-    unfold cap at a2 a4
     rw [wrap_id (by omega) (by omega)]
     have := subSum_update c hw a e e' ((loadSub c s a e).bal - amt) (loadSub c s a e).frz
     rw [show (saveSub c s e { loadSub c s a e with bal := (loadSub c s a e).bal - amt }) =
       saveSub c s e ⟨(loadSub c s a e).addr, (loadSub c s a e).bal - amt, (loadSub c s a e).frz⟩ from rfl]
     rw [this]; split <;> omega
 
-theorem execFrozen_subSum {s : State σ κ} (hw : WF c s) (hs : SubB cap s.sub) (a e : σ) (amt : Int)
+theorem execFrozen_subSum {s : State σ κ} (hw : WF c s) (hs : SubB 9000000000000000000 s.sub) (a e : σ) (amt : Int)
     (hok : (execFrozen c s a e amt).2 = .ok) (e' : σ) :
     subSum e' (execFrozen c s a e amt).1 = subSum e' s := by
-  rcases execFrozen_cases c s a e amt with hf | ⟨_, h1, h2, he⟩
+  rcases execFrozen_cases c s a e amt with hf | ⟨nf, _, h1, h2, h4, he⟩
   · exact absurd hok (not_ok_of_failed hf)
   · rw [he]; rw [checkAmount_iff] at h1
     obtain ⟨a1, a2, a3, a4⟩ := subB_load c hs (by decide) a e
-    unfold cap at a2 a4
+    obtain ⟨n1, n2, n3⟩ := safeAdd_some h4 a3 a4
     rw [wrap_id (x := (loadSub c s a e).bal - amt) (by omega) (by omega)]
-    rw [wrap_id (x := (loadSub c s a e).frz + amt) (by omega) (by omega)]
-    have := subSum_update c hw a e e' ((loadSub c s a e).bal - amt) ((loadSub c s a e).frz + amt)
-    rw [show (saveSub c s e { loadSub c s a e with bal := (loadSub c s a e).bal - amt, frz := (loadSub c s a e).frz + amt }) =
-      saveSub c s e ⟨(loadSub c s a e).addr, (loadSub c s a e).bal - amt, (loadSub c s a e).frz + amt⟩ from rfl]
+    have := subSum_update c hw a e e' ((loadSub c s a e).bal - amt) nf
+    rw [show (saveSub c s e { loadSub c s a e with bal := (loadSub c s a e).bal - amt, frz := nf }) =
+      saveSub c s e ⟨(loadSub c s a e).addr, (loadSub c s a e).bal - amt, nf⟩ from rfl]
     rw [this]; split <;> omega
 
-theorem execActive_subSum {s : State σ κ} (hw : WF c s) (hs : SubB cap s.sub) (a e : σ) (amt : Int)
+theorem execActive_subSum {s : State σ κ} (hw : WF c s) (hs : SubB 9000000000000000000 s.sub) (a e : σ) (amt : Int)
     (hok : (execActive c s a e amt).2 = .ok) (e' : σ) :
     subSum e' (execActive c s a e amt).1 = subSum e' s := by
-  rcases execActive_cases c s a e amt with hf | ⟨_, h1, h2, he⟩
+  rcases execActive_cases c s a e amt with hf | ⟨nb, _, h1, h2, h4, he⟩
   · exact absurd hok (not_ok_of_failed hf)
   · rw [he]; rw [checkAmount_iff] at h1
     obtain ⟨a1, a2, a3, a4⟩ := subB_load c hs (by decide) a e
-    unfold cap at a2 a4
-    rw [wrap_id (x := (loadSub c s a e).bal + amt) (by omega) (by omega)]
+    obtain ⟨n1, n2, n3⟩ := safeAdd_some h4 a1 a2
     rw [wrap_id (x := (loadSub c s a e).frz - amt) (by omega) (by omega)]
-    have := subSum_update c hw a e e' ((loadSub c s a e).bal + amt) ((loadSub c s a e).frz - amt)
-    rw [show (saveSub c s e { loadSub c s a e with bal := (loadSub c s a e).bal + amt, frz := (loadSub c s a e).frz - amt }) =
-      saveSub c s e ⟨(loadSub c s a e).addr, (loadSub c s a e).bal + amt, (loadSub c s a e).frz - amt⟩ from rfl]
+    have := subSum_update c hw a e e' nb ((loadSub c s a e).frz - amt)
+    rw [show (saveSub c s e { loadSub c s a e with bal := nb, frz := (loadSub c s a e).frz - amt }) =
+      saveSub c s e ⟨(loadSub c s a e).addr, nb, (loadSub c s a e).frz - amt⟩ from rfl]
     rw [this]; split <;> omega
 
-theorem depositFrozen2_subSum {s : State σ κ} (hw : WF c s) (hs : SubB cap s.sub) (a e : σ) (amt : Int)
-    (h1 : checkAmount amt = true) (e' : σ) :
-    subSum e' (saveSub c s e { loadSub c s a e with frz := wrap ((loadSub c s a e).frz + amt) }) =
-      subSum e' s + (if e = e' then amt else 0) := by
-  rw [checkAmount_iff] at h1
-  obtain ⟨a1, a2, a3, a4⟩ := subB_load c hs (by decide) a e
-  unfold cap at a2 a4
-  rw [wrap_id (by omega) (by omega)]
-  have := subSum_update c hw a e e' (loadSub c s a e).bal ((loadSub c s a e).frz + amt)
-  rw [show (saveSub c s e { loadSub c s a e with frz := (loadSub c s a e).frz + amt }) =
-    saveSub c s e ⟨(loadSub c s a e).addr, (loadSub c s a e).bal, (loadSub c s a e).frz + amt⟩ from rfl]
-  rw [this]; split <;> omega
+theorem depositFrozen2_subSum {s : State σ κ} (hw : WF c s) (hs : SubB 9000000000000000000 s.sub) (a e : σ) (amt : Int)
+    (hok : (depositFrozen2 c s a e amt).2 = .ok) (e' : σ) :
+    subSum e' (depositFrozen2 c s a e amt).1 = subSum e' s + (if e = e' then amt else 0) := by
+  rcases depositFrozen2_cases c s a e amt with hf | ⟨nf, h4, he⟩
+  · exact absurd hok (not_ok_of_failed hf)
+  · rw [he]
+    obtain ⟨a1, a2, a3, a4⟩ := subB_load c hs (by decide) a e
+    obtain ⟨n1, n2, n3⟩ := safeAdd_some h4 a3 a4
+    have := subSum_update c hw a e e' (loadSub c s a e).bal nf
+    rw [show (saveSub c s e { loadSub c s a e with frz := nf }) =
+      saveSub c s e ⟨(loadSub c s a e).addr, (loadSub c s a e).bal, nf⟩ from rfl]
+    rw [this]; split <;> omega
 
 /-- the second load of an exec-internal transfer sees the original record when the two accounts
 differ; the first save then does not disturb it. -/
@@ -146,44 +139,42 @@ theorem loadSub_after_save_ne {s : State σ κ} (hw : WF c s) (f t e : σ) (hne 
   rw [loadSub_norm c hw, if_neg]
   intro h; exact hne (Prod.mk.inj h).2
 
-theorem execTransfer_subSum {s : State σ κ} (hw : WF c s) (hs : SubB cap s.sub) (f t e : σ) (amt : Int)
+theorem execTransfer_subSum {s : State σ κ} (hw : WF c s) (hs : SubB 9000000000000000000 s.sub) (f t e : σ) (amt : Int)
     (hok : (execTransfer c s f t e amt).2 = .ok) (e' : σ) :
     subSum e' (execTransfer c s f t e amt).1 = subSum e' s := by
-  rcases execTransfer_cases c s f t e amt with hf | ⟨_, hne, h1, h2, he⟩
+  rcases execTransfer_cases c s f t e amt with hf | ⟨nb, _, hne, h1, h2, h4, he⟩
   · exact absurd hok (not_ok_of_failed hf)
   · rw [he]; rw [checkAmount_iff] at h1
     obtain ⟨a1, a2, a3, a4⟩ := subB_load c hs (by decide) f e
     obtain ⟨b1, b2, b3, b4⟩ := subB_load c hs (by decide) t e
-    unfold cap at a2 a4 b2 b4
+    obtain ⟨n1, n2, n3⟩ := safeAdd_some h4 b1 b2
     rw [wrap_id (x := (loadSub c s f e).bal - amt) (by omega) (by omega)] at h2 ⊢
-    rw [wrap_id (x := (loadSub c s t e).bal + amt) (by omega) (by omega)]
     have e1 := subSum_update c hw f e e' ((loadSub c s f e).bal - amt) (loadSub c s f e).frz
     have hw1 := wf_saveSub c hw e ⟨(loadSub c s f e).addr, (loadSub c s f e).bal - amt, (loadSub c s f e).frz⟩
     have hl := loadSub_after_save_ne c hw f t e hne ((loadSub c s f e).bal - amt) (loadSub c s f e).frz
-    have e2 := subSum_update c hw1 t e e' ((loadSub c s t e).bal + amt) (loadSub c s t e).frz
+    have e2 := subSum_update c hw1 t e e' nb (loadSub c s t e).frz
     rw [hl] at e2
     show subSum e' (saveSub c (saveSub c s e ⟨(loadSub c s f e).addr, (loadSub c s f e).bal - amt, (loadSub c s f e).frz⟩) e
-      ⟨(loadSub c s t e).addr, (loadSub c s t e).bal + amt, (loadSub c s t e).frz⟩) = _
+      ⟨(loadSub c s t e).addr, nb, (loadSub c s t e).frz⟩) = _
     rw [e2, e1]; split <;> omega
 
-theorem execTransferFrozen_subSum {s : State σ κ} (hw : WF c s) (hs : SubB cap s.sub) (f t e : σ)
+theorem execTransferFrozen_subSum {s : State σ κ} (hw : WF c s) (hs : SubB 9000000000000000000 s.sub) (f t e : σ)
     (amt : Int) (hok : (execTransferFrozen c s f t e amt).2 = .ok) (e' : σ) :
     subSum e' (execTransferFrozen c s f t e amt).1 = subSum e' s := by
-  rcases execTransferFrozen_cases c s f t e amt with hf | ⟨_, hne, h1, h2, he⟩
+  rcases execTransferFrozen_cases c s f t e amt with hf | ⟨nb, _, hne, h1, h2, h4, he⟩
   · exact absurd hok (not_ok_of_failed hf)
   · rw [he]; rw [checkAmount_iff] at h1
     obtain ⟨a1, a2, a3, a4⟩ := subB_load c hs (by decide) f e
     obtain ⟨b1, b2, b3, b4⟩ := subB_load c hs (by decide) t e
-    unfold cap at a2 a4 b2 b4
+    obtain ⟨n1, n2, n3⟩ := safeAdd_some h4 b1 b2
     rw [wrap_id (x := (loadSub c s f e).frz - amt) (by omega) (by omega)] at h2 ⊢
-    rw [wrap_id (x := (loadSub c s t e).bal + amt) (by omega) (by omega)]
     have e1 := subSum_update c hw f e e' (loadSub c s f e).bal ((loadSub c s f e).frz - amt)
     have hw1 := wf_saveSub c hw e ⟨(loadSub c s f e).addr, (loadSub c s f e).bal, (loadSub c s f e).frz - amt⟩
     have hl := loadSub_after_save_ne c hw f t e hne (loadSub c s f e).bal ((loadSub c s f e).frz - amt)
-    have e2 := subSum_update c hw1 t e e' ((loadSub c s t e).bal + amt) (loadSub c s t e).frz
+    have e2 := subSum_update c hw1 t e e' nb (loadSub c s t e).frz
     rw [hl] at e2
     show subSum e' (saveSub c (saveSub c s e ⟨(loadSub c s f e).addr, (loadSub c s f e).bal, (loadSub c s f e).frz - amt⟩) e
-      ⟨(loadSub c s t e).addr, (loadSub c s t e).bal + amt, (loadSub c s t e).frz⟩) = _
+      ⟨(loadSub c s t e).addr, nb, (loadSub c s t e).frz⟩) = _
     rw [e2, e1]; split <;> omega
 
 /-- `ExecTransfer` as it was before repo commit 3bc3d2b: only the *spellings* were compared. -/
@@ -214,7 +205,7 @@ theorem execTransferOld_cases (s : State σ κ) (f t e : σ) (amt : Int) :
 /-- Regression witness about the OLD guard, for every state: when `from` and `to` are two
 spellings of one account (`norm from = norm to`, `from ≠ to`) a successful old `ExecTransfer`
 raises the sub-ledger total of the exec address by `amount` (credit without debit). -/
-theorem execTransferOld_alias_subSum {s : State σ κ} (hw : WF c s) (hs : SubB cap s.sub) (f t e : σ)
+theorem execTransferOld_alias_subSum {s : State σ κ} (hw : WF c s) (hs : SubB 9000000000000000000 s.sub) (f t e : σ)
     (amt : Int) (heq : c.norm f = c.norm t) (hok : (execTransferOld c s f t e amt).2 = .ok) :
     subSum e (execTransferOld c s f t e amt).1 = subSum e s + amt := by
   rcases execTransferOld_cases c s f t e amt with hf | ⟨_, h1, h2, he⟩
@@ -222,7 +213,6 @@ theorem execTransferOld_alias_subSum {s : State σ κ} (hw : WF c s) (hs : SubB 
   · rw [he]; rw [checkAmount_iff] at h1
     obtain ⟨a1, a2, a3, a4⟩ := subB_load c hs (by decide) f e
     obtain ⟨b1, b2, b3, b4⟩ := subB_load c hs (by decide) t e
-    unfold cap at a2 a4 b2 b4
     rw [wrap_id (x := (loadSub c s f e).bal - amt) (by omega) (by omega)] at h2 ⊢
     rw [wrap_id (x := (loadSub c s t e).bal + amt) (by omega) (by omega)]
     have hbal : (loadSub c s t e).bal = (loadSub c s f e).bal ∧ (loadSub c s t e).frz = (loadSub c s f e).frz := by
@@ -252,10 +242,10 @@ theorem subB_of_sub_eq {s s' : State σ κ} {B : Int} (h : s'.sub = s.sub) (hs :
     SubB B s'.sub := by rw [h]; exact hs
 
 /-- Exact change of the exec equation by one successful operation, for every exec address `e'`:
-the state is well formed, the main ledger within bounds, every sub-account field at most `cap`
-(so nothing wraps), and genesis grants non-negative. -/
-theorem deficit_step {s : State σ κ} (hw : WF c s) (hm : MainOK s) (hs : SubB cap s.sub)
-    (op : Op σ) (hop : GenesisOK op) (hok : (step c s op).2 = .ok) (e' : σ) :
+the state satisfies the reachable-state invariant (well formed, both ledgers within
+`[0, MaxTokenBalance]`). -/
+theorem deficit_step {s : State σ κ} (hw : WF c s) (hm : MainOK s) (hs : SubB 9000000000000000000 s.sub)
+    (op : Op σ) (hok : (step c s op).2 = .ok) (e' : σ) :
     deficit c (step c s op).1 e' = deficit c s e' + opDeficit c e' op := by
   simp only [deficit_eq]
   cases op with
@@ -274,7 +264,7 @@ theorem deficit_step {s : State σ κ} (hw : WF c s) (hm : MainOK s) (hs : SubB 
     rw [h3 e', subSum_of_sub_eq h2]; simp only [opDeficit]; omega
   | genesis a amt =>
     simp only [step] at hok ⊢
-    obtain ⟨_, h2, h3⟩ := genesis_effect c hw hm a amt hop hok
+    obtain ⟨_, h2, h3⟩ := genesis_effect c hw hm a amt hok
     rw [h3 e', subSum_of_sub_eq h2]; simp only [opDeficit]; omega
   | execIssue e amt =>
     simp only [step] at hok ⊢
@@ -285,7 +275,7 @@ theorem deficit_step {s : State σ κ} (hw : WF c s) (hm : MainOK s) (hs : SubB 
     rcases basic_ok_or_failed_genesis c s e amt with h | h
     · rw [if_pos (not_ok_of_failed h)] at hok; exact absurd hok (not_ok_of_failed h)
     · rw [if_neg (by simp [h])] at hok ⊢
-      obtain ⟨_, h2, h3⟩ := genesis_effect c hw hm e amt hop h
+      obtain ⟨_, h2, h3⟩ := genesis_effect c hw hm e amt h
       have hw1 : WF c (genesis c s e amt).1 := wf_step c (.genesis e amt) hw
       split at hok
       · cases hok
@@ -351,23 +341,18 @@ theorem deficit_step {s : State σ κ} (hw : WF c s) (hm : MainOK s) (hs : SubB 
     · cases hok
     · next hae =>
       rw [if_neg hae]
-      rcases basic_ok_or_failed_execIssue c s e amt with h | h
-      · rw [if_pos (not_ok_of_failed h)] at hok; exact absurd hok (not_ok_of_failed h)
-      · rw [if_neg (by simp [h])]
-        obtain ⟨_, h2, h3⟩ := execIssue_effect c hw hm e amt h
-        have hw1 : WF c (execIssue c s e amt).1 := wf_step c (.execIssue e amt) hw
-        have hca : checkAmount amt = true := by
-          rcases execIssue_cases c s e amt with hf | ⟨nb, hca, _, _⟩
-          · exact absurd h (not_ok_of_failed hf)
-          · exact hca
-        dsimp only
-        rw [depositFrozen2_subSum c hw1 (subB_of_sub_eq h2 hs) a e amt hca e', subSum_of_sub_eq h2]
-        have : mb c (saveSub c (execIssue c s e amt).1 e
-            { loadSub c (execIssue c s e amt).1 a e with
-              frz := wrap ((loadSub c (execIssue c s e amt).1 a e).frz + amt) }) e'
-            = mb c (execIssue c s e amt).1 e' := rfl
-        rw [this, h3 e']
-        simp only [opDeficit]; omega
+      split at hok
+      · cases hok
+      · next hg =>
+        rw [if_neg hg]
+        rcases basic_ok_or_failed_execIssue c s e amt with h | h
+        · rw [if_pos (not_ok_of_failed h)] at hok; exact absurd hok (not_ok_of_failed h)
+        · rw [if_neg (by simp [h])] at hok ⊢
+          obtain ⟨_, h2, h3⟩ := execIssue_effect c hw hm e amt h
+          have hw1 : WF c (execIssue c s e amt).1 := wf_step c (.execIssue e amt) hw
+          rw [mb_of_main_eq c (main_depositFrozen2 c _ a e amt),
+            depositFrozen2_subSum c hw1 (subB_of_sub_eq h2 hs) a e amt hok e', subSum_of_sub_eq h2, h3 e']
+          simp only [opDeficit]; omega
   | execDeposit a e amt =>
     simp only [step] at hok ⊢
     rw [mb_of_main_eq c (main_execDeposit c s a e amt), execDeposit_subSum c hw hs a e amt hok e']
@@ -376,48 +361,6 @@ theorem deficit_step {s : State σ κ} (hw : WF c s) (hm : MainOK s) (hs : SubB 
     simp only [step] at hok ⊢
     rw [mb_of_main_eq c (main_execWithdraw c s e a amt), execWithdraw_subSum c hw hs e a amt hok e']
     simp only [opDeficit]; omega
-
-end
-end C15
-
-namespace C15
-section
-variable {σ κ : Type} [DecidableEq σ] [DecidableEq κ] (c : Cfg σ κ)
-
-omit [DecidableEq κ] in
-theorem mem_le_asumP {α : Type} (p : κ → Bool) (f : α → Int) (m : List (κ × α))
-    (hf : AllV (fun _ v => 0 ≤ f v) m) {k : κ} {v : α} (hk : (k, v) ∈ m) (hp : p k = true) :
-    f v ≤ asumP p f m := by
-  induction m with
-  | nil => cases hk
-  | cons q r ih =>
-    obtain ⟨k0, v0⟩ := q
-    have hr : AllV (fun _ v => 0 ≤ f v) r := fun a b hab => hf a b (List.mem_cons_of_mem _ hab)
-    have h0v : 0 ≤ f v0 := hf k0 v0 (by simp)
-    have hnn := asumP_nonneg p f r hr
-    rcases List.mem_cons.mp hk with h | h
-    · cases h; simp only [asumP, hp, if_true]; omega
-    · have := ih hr h
-      simp only [asumP]; split <;> omega
-
-/-- every exec address's own balance covers the accounts held under it. -/
-def Backed (c : Cfg σ κ) (s : State σ κ) : Prop := ∀ e, 0 ≤ deficit c s e
-
-/-- In a backed, non-negative state no sub-account field exceeds `MaxTokenBalance`. -/
-theorem backed_subB {s : State σ κ} (hm : MainOK s)
-    (hn : AllV (fun _ r => 0 ≤ r.bal ∧ 0 ≤ r.frz) s.sub) (hb : Backed c s) :
-    SubB 9000000000000000000 s.sub := by
-  intro k r hkr
-  obtain ⟨h1, h2⟩ := hn k r hkr
-  have hsum : r.bal + r.frz ≤ subSum k.1 s := by
-    unfold subSum
-    exact mem_le_asumP (fun k' => decide (k'.1 = k.1)) (fun r => r.bal + r.frz) s.sub
-      (allv_mono hn (fun _ _ h => by omega)) hkr (by simp)
-  have hd := hb k.1
-  rw [deficit_eq] at hd
-  obtain ⟨_, b2, _⟩ := mainOK_load c hm k.1
-  unfold mb at hd
-  refine ⟨h1, ?_, h2, ?_⟩ <;> omega
 
 end
 end C15
